@@ -8,7 +8,9 @@ _BASE = ("scenario = 2-4 leaf signals held by the program and 1-3 threads runnin
          "holds; real Signal/OrSignal/AndSignals, gc disabled so that objects die by reference counting exactly when the last "
          "reference goes; then/go/remove_then are atomic sections, every callback, operand test and section is a pre-emption "
          "point; non-trivial = >=1 pre-emption; distinct = (scenario, schedule) hash")
-RULE = {"C03": _BASE, "C04": _BASE + "; C04 profile: more & and nested temporaries", "C15": _BASE}
+RULE = {"C03": _BASE, "C04": _BASE + "; C04 profile: more & and nested temporaries; plus fine-mode runs (monitor only): AND composites whose operands "
+        "are triggered by separate threads with a pre-emption point at every read/write of AndSignals.remaining and every operation on its lock",
+        "C15": _BASE}
 
 
 class M2(plug.Model):
@@ -34,7 +36,19 @@ class M2(plug.Model):
         return 300
 
 
+class M2F(M2):
+    """fine mode (C04): the AndSignals countdown is not an atomic section; monitors only"""
+    name = "m2f"
+    mode = "monitor"
+
+
 MODELS = {p: M2(p) for p in ("C03", "C04", "C15")}
+MODELF = M2F("C04")
+
+
+def genf(rng, prop, job):
+    from . import m2_composite
+    return m2_composite.gen_fine(rng)
 
 
 def gen(rng, prop, job):
@@ -42,8 +56,39 @@ def gen(rng, prop, job):
     return m2_composite.gen_scenario(rng, prop)
 
 
+def layer_jobs(prop, tier, seed):
+    """M2 treats then / go / remove_then as atomic; that is C01/C02's subject on the fine-grained model M1.  The same
+    exploration is run here so that a change which breaks that atomicity is reported for this property too."""
+    from . import p_m1
+    jobs = []
+    for j in p_m1.make_jobs("C02", tier, seed)[: (8 if tier == "quick" else 40)]:
+        jobs.append({"kind": "layer", "prop": prop, "inner": dict(j, prop="C02")})
+    return jobs
+
+
+def run_layer(job):
+    from . import p_m1
+    res = p_m1.run_job(job["inner"])
+    if "infra_error" in res:
+        return res
+    prop = job["prop"]
+    for f in res.get("mon_fail", []):
+        f["msg"] = "%s: Signal.then/go/remove_then are not atomic with respect to each other, which the model of composites assumes (%s)" % (prop, f["msg"])
+        f["replay"] = {"model": "m1-layer", "inner": f.get("replay")}
+    for f in res.get("corr_fail", []):
+        f["msg"] = "layer M1 (atomicity of then/go/remove_then): " + f["msg"]
+        f["replay"] = {"model": "m1-layer", "inner": f.get("replay")}
+    res["known"] = []
+    return res
+
+
 def make_jobs(prop, tier, seed):
-    return plug.std_jobs(prop, tier, seed, "m2", n_quick=16, per_quick=6, schedules=4)
+    jobs = plug.std_jobs(prop, tier, seed, "m2", n_quick=16, per_quick=6, schedules=4)
+    jobs.extend(layer_jobs(prop, tier, seed))
+    if prop == "C04":
+        for j in range(4 if tier == "quick" else 24):
+            jobs.append({"kind": "explore", "side": "fine", "prop": prop, "seed": seed * 15485863 + j, "scenarios": 6, "schedules": 16, "no_driver": True})
+    return jobs
 
 
 def search_jobs(prop, tier, seed, corr_fail):
@@ -51,6 +96,25 @@ def search_jobs(prop, tier, seed, corr_fail):
 
 
 def run_job(job):
+    if job["kind"] == "layer":
+        return run_layer(job)
+    rp0 = (job.get("replay") or {}).get("replay") or job.get("replay") or (job.get("failure") or {}).get("replay") or {}
+    if rp0.get("model") == "m1-layer":
+        from . import p_m1
+        if job["kind"] == "shrink":
+            return {"failure": job["failure"]}
+        return p_m1.run_job({"kind": "replay", "prop": "C02", "replay": rp0.get("inner") or {}})
+    if job.get("side") == "fine":
+        return plug.std_job(MODELF, genf, job)
+    rp = (job.get("replay") or {}).get("replay") or job.get("replay") or (job.get("failure") or {}).get("replay") or {}
+    if (rp.get("scenario") or {}).get("fine"):
+        if job["kind"] == "shrink":
+            return {"failure": job["failure"]}
+        res = plug.run_batch(MODELF, job["prop"], [(rp["scenario"], None, 0, rp["choices"])], use_driver=False)
+        if "infra_error" in res:
+            return res
+        hit = res["mon_fail"]
+        return {"violated": bool(hit), "message": hit[0]["msg"] if hit else "the composite agreed with its operands"}
     return plug.std_job(MODELS[job["prop"]], gen, job)
 
 
